@@ -123,6 +123,17 @@ func init() {
 		fr.x.allocMax = 0
 		return nil
 	})
+	// VerifStepBound(n): from here on the path must end within n executed SSA instructions; running
+	// past that is a "hang" candidate (confirmed or dropped by the native replay, which waits 60 s).
+	reg(libPkg+"VerifStepBound", func(fr *frame, args []Value) Value {
+		n := int(fr.x.concreteInt(args[0].(*Term), "VerifStepBound"))
+		if n <= 0 {
+			fr.x.hangAt = 0
+		} else {
+			fr.x.hangAt = fr.x.steps + n
+		}
+		return nil
+	})
 	reg(libPkg+"VerifFail", func(fr *frame, args []Value) Value {
 		fr.x.Assert(fr.x.ts.F, concStr(fr.x, args[0]))
 		return nil
